@@ -159,6 +159,8 @@ def run_c08(ctx, spec):
     seen = set()
     for b in bad:
         k = _key(b["src"])
+        if b.get("impl") in ("HANG", "CRASH") and C.has_large_count(b["src"]):
+            k = C.KEY_LARGE_COUNT
         if k in seen:
             continue
         seen.add(k)
